@@ -200,7 +200,9 @@ class VFSZip(VFS_Real):
                         {
                             "dirlevel": dirlevel,
                             "filename": filename_,
-                            "pathname": info.filename,
+                            # Transcoded like the keys of the index, so that
+                            # relative links can be resolved against it.
+                            "pathname": filename,
                             "dest": self._readlinkfspath(info.filename),
                         }
                     )
@@ -219,8 +221,14 @@ class VFSZip(VFS_Real):
                 else:
                     dest = os.path.join(os.path.dirname(item["pathname"]), item["dest"])
                     dest = os.path.normpath(dest)
+                    if dest == ".":
+                        # The link points at the root of the archive.
+                        dest = ""
                 if self._isentryincache(dest):
                     item["dirlevel"][item["filename"]] = self._getcacheinode(dest)
+                    # The index just changed: lookups that failed against the
+                    # old index must not be remembered as invalid.
+                    self.invalid_paths.clear()
                 else:
                     newsymlinkinodes.append(item)
             symlinkinodes = newsymlinkinodes
